@@ -620,6 +620,11 @@ body:
 	var t Term
 	if n.Forall {
 		t = Term{fmt.Sprintf("(forall (%s) %s)", strings.Join(decls, " "), Implies(guard, body).S), SBool}
+		if u.ctx.inQuant == 1 && len(t.S) <= 8000 && len(u.ctx.qrecs) < 400 {
+			if vs, b, ok := splitForall(t.S); ok {
+				u.ctx.qrecs = append(u.ctx.qrecs, qrec{t.S, vs, b})
+			}
+		}
 	} else {
 		t = Term{fmt.Sprintf("(exists (%s) %s)", strings.Join(decls, " "), And(guard, body).S), SBool}
 	}
@@ -724,6 +729,9 @@ func (e *SpecEnv) evalCall(n *SCall) Value {
 		s := e.scalar(n.Args[0])
 		return Sc{And(Neq(s.T, TNil), Cmp(">=", app("objof", SInt, s.T), e.old.allocTerm()), Cmp("<", app("objof", SInt, s.T), e.st.allocTerm())), tb}
 	case "allocated":
+		if sl, ok := e.eval(n.Args[0]).(SliceV); ok {
+			return Sc{Cmp("<", app("objof", SInt, sl.Arr), e.st.allocTerm()), tb}
+		}
 		s := e.scalar(n.Args[0])
 		return Sc{Cmp("<", app("objof", SInt, s.T), e.st.allocTerm()), tb}
 	case "typeis":
